@@ -1,10 +1,26 @@
+import importlib
+import pkgutil
 import sys
-from .common import main_for
+
+from .common import PropertyCheck, main_for
 
 
 def registry():
-    from . import interleaved
-    reg = {"C04": interleaved.C04, "C05": interleaved.C05, "C06": interleaved.C06}
+    """every PropertyCheck subclass with a real pid found in harness/kdv/*.py (auto-discovery)"""
+    import kdv
+    reg = {}
+    for m in pkgutil.iter_modules(kdv.__path__):
+        if m.name in ("check", "common", "manifest", "replay", "gen_all"):
+            continue
+        try:
+            mod = importlib.import_module(f"kdv.{m.name}")
+        except Exception as e:  # a broken module must not take the other checks down
+            print(f"[registry] cannot import kdv.{m.name}: {type(e).__name__}: {e}", file=sys.stderr)
+            continue
+        for v in vars(mod).values():
+            if isinstance(v, type) and issubclass(v, PropertyCheck) and v is not PropertyCheck:
+                if v.pid != "C00" and v.__module__ == mod.__name__:
+                    reg[v.pid] = v
     return reg
 
 
